@@ -309,14 +309,34 @@ def _timing_run(case):
     srv = raop_protocols.TimingServer()
     srv.connection_made(Transport())
     orig = timing.ntp_now
+    # fix the clock wherever the name is reachable (module attribute, or imported by name into the
+    # protocol module); if neither takes effect the reply is judged against the wall clock instead
+    imported = getattr(raop_protocols, "ntp_now", None)
     timing.ntp_now = lambda: case["now"]
+    if imported is not None:
+        raop_protocols.ntp_now = timing.ntp_now
+    _timing_run.bracket = [orig(), None]
     try:
         srv.datagram_received(bytes.fromhex(case["data"]), ("10.0.0.9", 6002))
     except Exception as e:
         return ("err", type(e).__name__)
     finally:
         timing.ntp_now = orig
+        if imported is not None:
+            raop_protocols.ntp_now = imported
+        _timing_run.bracket[1] = orig()
     return ("ok", sent)
+
+
+def _clock_ok(case, resp):
+    """receive/send time of the reply: the fixed clock, or (when the clock could not be fixed in
+    this code shape) a wall-clock reading taken during the call"""
+    now = [case["now"] >> 32, case["now"] & 0xFFFFFFFF]
+    if resp[6:8] == now and resp[8:10] == now:
+        return True
+    lo, hi = _timing_run.bracket
+    recv, send = resp[6] << 32 | resp[7], resp[8] << 32 | resp[9]
+    return hi is not None and lo <= recv <= send <= hi
 
 
 def _ref_fields(name, data):
@@ -334,9 +354,8 @@ def oracle_timing(case):
         return [("headers:timing:no-reply", repr(r)[:200], "one 32-byte timing reply to the sender",
                  "a well-formed timing request was not answered with a timing packet")]
     resp = _ref_fields("TimingPacket", r[1][0][0])
-    now = [case["now"] >> 32, case["now"] & 0xFFFFFFFF]
-    want = {"proto": req[0], "reftime": req[8:10], "recvtime": now, "sendtime": now}
-    got = {"proto": resp[0], "reftime": resp[4:6], "recvtime": resp[6:8], "sendtime": resp[8:10]}
+    want = {"proto": req[0], "reftime": req[8:10], "clock": True}
+    got = {"proto": resp[0], "reftime": resp[4:6], "clock": _clock_ok(case, resp)}
     if got != want:
         return [("headers:timing:reply-fields", repr(got), repr(want),
                  "the timing reply must carry the request's send time as reference time and the clock as receive/send time "
@@ -354,19 +373,24 @@ def run_timing(ctx, only=None):
             vals += [rng.choice([0, 1, 2 ** 31, 2 ** 32 - 1, rng.getrandbits(32)]) for _ in range(6)]
             now = rng.choice([rng.getrandbits(64), (0x83AA7E80 + rng.getrandbits(30)) << 32 | rng.getrandbits(32), 2 ** 64 - 1, 2 ** 32])
             cases.append({"kind": "timing", "cls": "TimingPacket", "data": ref_enc("TimingPacket", vals).hex(), "now": now})
-    lines = []
+    lines, runs = [], []
     for c in cases:
         req = _ref_fields("TimingPacket", bytes.fromhex(c["data"]))
-        now = [c["now"] >> 32, c["now"] & 0xFFFFFFFF]
+        r = _timing_run(c)
+        runs.append(r)
+        times = [c["now"] >> 32, c["now"] & 0xFFFFFFFF] * 2
+        if r[0] == "ok" and len(r[1]) == 1 and len(r[1][0][0]) == 32:
+            resp = _ref_fields("TimingPacket", r[1][0][0])
+            if _clock_ok(c, resp):
+                times = resp[6:10]          # the clock readings the real code took
         lines.append("dec TimingPacket " + c["data"])
-        lines.append("enc TimingPacket " + _wire([req[0], 0x53 | 0x80, 7, 0, req[8], req[9]] + now + now))
+        lines.append("enc TimingPacket " + _wire([req[0], 0x53 | 0x80, 7, 0, req[8], req[9]] + times))
     answers = iter(ctx.lean(lines, driver=DRIVER))
-    for c in cases:
+    for c, r in zip(cases, runs):
         m_req, m_resp = next(answers), next(answers)
         req = _ref_fields("TimingPacket", bytes.fromhex(c["data"]))
         if m_req != ("ok " + _wire(req)):
             ctx.disagree(c, "ok " + _wire(req), m_req, where="headers timing request (reference decode vs model)")
-        r = _timing_run(c)
         impl = _hex(r[1][0][0]) if r[0] == "ok" and len(r[1]) == 1 else "err:" + repr(r)[:80]
         if impl != m_resp:
             ctx.disagree(c, impl, m_resp, where="headers TimingServer reply")
